@@ -167,6 +167,8 @@ SERIAL_FNS = ["lemma_pool_bytes_is_pf", "StringRef::write", "ColumnType::write_v
 PROPS["C01"]["verus"]["serial"] = SERIAL_FNS
 PROPS["C08"]["verus"]["serial"] = SERIAL_FNS
 
+PROPS["C10"]["verus"]["serial"] = ["PropertyValue::encoded_size_including_padding", "PropertyValue::write", "Timestamp::write_to", "lemma_pad"]
+
 PROPS["C15"] = {
     "level": "proof",
     "verus": {"serial": ["Table::write_rows", "StringPool::write_pool", "StringPool::write_data",
